@@ -7,7 +7,7 @@ export GOFLAGS=-mod=mod GOPROXY=off GOSUMDB=off GOTOOLCHAIN=local
 mkdir -p .build evidence replays
 (cd go/extract && GOCACHE="$PWD/../../.build/gocache" go build -o ../../.build/extract . && ../../.build/extract /repo "$PWD/../../lean/CvssVerif/Generated/Names.lean")
 (cd go/effects && GOCACHE="$PWD/../../.build/gocache" go build -o ../../.build/effects . && ../../.build/effects /repo "$PWD/../../lean/CvssVerif/Generated/Effects.lean")
-(cd go/formulas && GOCACHE="$PWD/../../.build/gocache" go build -o ../../.build/formulas . && { ../../.build/formulas /repo "$PWD/../../lean/CvssVerif/Generated/Formulas.lean" || cp reference.lean ../../lean/CvssVerif/Generated/Formulas.lean; })
+(cd go/formulas && GOCACHE="$PWD/../../.build/gocache" go build -o ../../.build/formulas . && { ../../.build/formulas /repo "$PWD/../../lean/CvssVerif/Generated/Formulas.lean" "$PWD/reference.lean" || cp reference.lean ../../lean/CvssVerif/Generated/Formulas.lean; })
 (cd lean && LEAN_NUM_THREADS=16 lake build CvssVerif cvssmodel)
 # the tie by translation of the score functions (not part of the library root: a source that is no longer provably the model
 # must not stop the other modules from building; check.py reports it per property)
